@@ -175,7 +175,8 @@ func runWorker(bin string, args []string, env []string, onLine func(line []byte)
 	}
 	s := stderr.String()
 	if len(s) > 6000 {
-		s = s[len(s)-6000:]
+		// a fatal error names itself at the very beginning of a long dump
+		s = s[:2000] + "\n…\n" + s[len(s)-4000:]
 	}
 	return s, lastBegin, err
 }
@@ -278,8 +279,19 @@ func (c *Check) runPhase(p Phase) *phaseResult {
 				// the worker process died: attribute to the run it was executing
 				if last >= 0 {
 					idx := uint64(last)
+					sig := "process-abort"
+					switch {
+					case strings.Contains(stderrTail, "stack overflow") || strings.Contains(stderrTail, "goroutine stack exceeds"):
+						sig = "process-abort:stack-overflow"
+					case strings.Contains(stderrTail, "concurrent map"):
+						sig = "process-abort:concurrent-map-access"
+					case err != nil && strings.Contains(err.Error(), "watchdog"):
+						sig = "process-abort:hang"
+					case strings.Contains(stderrTail, "out of memory"):
+						sig = "process-abort:out-of-memory"
+					}
 					res.found = append(res.found, FoundViolation{
-						V: Violation{Property: c.Property, Class: "process-abort", Signature: "process-abort",
+						V: Violation{Property: c.Property, Class: "process-abort", Signature: sig,
 							Detail: fmt.Sprintf("worker process died (%v) while executing run %d; stderr tail:\n%s", err, idx, stderrTail)},
 						Seed: Mix(c.Seed, p.Engine, idx), Index: idx, Engine: p.Engine, Bin: p.Bin, BinKind: p.BinKind, Env: p.Env})
 				} else {
